@@ -471,3 +471,67 @@ def broadcast_for_private_predicates(prog, res, rule, fns, worker_entries=()):
                           % (f.name, cls[0], cls[1], private[cls][0]))
     res.count(rule + ".private-cond-classes", len(private))
     return n
+
+
+def wait_predicates(prog, fns, guarded):
+    """cond class -> [(function, line, frozenset of guarded (rec, field) read by the predicate loop around the wait)].
+    The predicate loop is every branch on a cycle through the wait; reads inside same-file static helpers called from
+    those conditions (isQueueFull) count one level deep."""
+    out = {}
+    for f in fns:
+        for b, i, c in f.calls(WAIT):
+            cls = lock_class(f, c["a"][0])
+            if cls is None:
+                continue
+            fields = set()
+            after = f.reachable([b])
+            for bid, cond, t, fl in f.branches():
+                if bid not in after or b not in f.reachable([bid]):
+                    continue
+                for y in f.walk_resolved(f.resolve_x(cond)):
+                    if y.get("k") == "mem" and (y.get("rec"), y["f"]) in guarded:
+                        fields.add((y.get("rec"), y["f"]))
+                    if y.get("k") == "call" and y.get("c") and prog.has_fn(y["c"]):
+                        h = prog.fn(y["c"])
+                        if h.static and h.file == f.file:
+                            for _, _, r in h.roots():
+                                for z in walk(r):
+                                    if z.get("k") == "mem" and (z.get("rec"), z["f"]) in guarded:
+                                        fields.add((z.get("rec"), z["f"]))
+            out.setdefault(cls, []).append((f.name, c.get("l"), frozenset(fields)))
+    return out
+
+
+def wake_discipline(prog, res, rule, fns, guarded, table, exempt):
+    """T2e, two clauses derived from the wait predicates themselves:
+    (heterogeneous waiters) a condition variable whose wait sites test different predicates must only be woken by
+    broadcast: a single wake-up can be consumed by a waiter whose predicate is still false while the waiter that could
+    proceed sleeps on;
+    (coverage) every guarded field read by some wait predicate on a condition variable has a must-signal row for that
+    condition variable (checked by T2.must-signal), or a reasoned exemption."""
+    preds = wait_predicates(prog, fns, guarded)
+    rows = {((r[0], r[1]), r[3]) for r in table}
+    n = 0
+    for cls, sites in sorted(preds.items()):
+        kinds = {s[2] for s in sites}
+        hetero = len(kinds) > 1
+        if hetero:
+            for f in fns:
+                for b, i, c in f.calls(SIGNAL):
+                    if lock_class(f, c["a"][0]) != cls:
+                        continue
+                    n += 1
+                    res.check(c.get("c") == "pthread_cond_broadcast", rule, "%s:broadcast:%s@%s" % (cls[1], f.name, c.get("l")), "%s:%s" % (f.file, c.get("l")),
+                              "broadcast (%s is waited on with different predicates by %s)" % (cls[1], sorted({s[0] for s in sites})),
+                              "%s wakes a single waiter of %s, which is waited on with different predicates by %s: the wake-up can go to a waiter "
+                              "that cannot proceed while the one that can stays blocked (lost wake-up)" % (f.name, cls[1], sorted({s[0] for s in sites})))
+        for fld in sorted(set().union(*kinds)):
+            n += 1
+            key = (fld, cls[1])
+            why = exempt.get((fld[1], cls[1]))
+            res.check(key in rows or why is not None, rule, "%s:covers:%s" % (cls[1], fld[1]), sites[0][0],
+                      "writes of %s wake %s (must-signal row)" % (fld[1], cls[1]) if key in rows else "exempt: %s" % why,
+                      "waiters of %s test %s, but no rule requires its writers to wake %s: a writer that makes the predicate true "
+                      "(e.g. a resize raising a limit) leaves the waiter blocked" % (cls[1], fld[1], cls[1]))
+    res.count(rule + ".wait-sites", sum(len(v) for v in preds.values()))
+    return n
